@@ -526,7 +526,7 @@ pub fn c03(ctx: &mut Ctx, layer: &str) {
     let (n_short3, n_host): (u64, usize) = match layer {
         "miri" => (0, if thorough { 16_000 } else { 800 }),
         "vg" => (20_000, if thorough { 300_000 } else { 40_000 }),
-        "asan" => (if thorough { 1 << 24 } else { 200_000 }, if thorough { 20_000_000 } else { 300_000 }),
+        "asan" => (if thorough { 3_000_000 } else { 200_000 }, if thorough { 6_000_000 } else { 300_000 }),
         _ => (if thorough { 1 << 24 } else { 2_000_000 }, if thorough { 50_000_000 } else { 3_000_000 }),
     };
     let tiny = layer == "miri";
